@@ -178,9 +178,22 @@ def flag_text(e):
     return None, False
 
 
+ARGS = "args"      # name of the parsed-arguments variable in main (discovered by parse_cli)
+
+
+def args_name(fn):
+    for n in walk_no_nested(fn):
+        if isinstance(n, ast.Assign) and isinstance(n.targets[0], ast.Name) and isinstance(n.value, ast.Call) \
+                and isinstance(n.value.func, ast.Attribute) and n.value.func.attr == "parse_args":
+            return n.targets[0].id
+    return "args"
+
+
 def parse_cli(model):
     """Read main()'s argparse spec: {dest: ArgSpec}, mutually-exclusive groups {group var: [dest]}."""
+    global ARGS
     f = model.func("graphtage.__main__.main")
+    ARGS = args_name(f.node)
     specs, groups, group_parent = {}, {}, {}
     for n in walk_no_nested(f.node):
         if isinstance(n, ast.Assign) and isinstance(n.value, ast.Call) and isinstance(n.value.func, ast.Attribute) \
@@ -229,13 +242,14 @@ def default_env(specs):
     for d, s in specs.items():
         if s.template:
             continue
-        env[f"args.{d}"] = s.default if not (isinstance(s.default, tuple) and s.default and s.default[0] == "expr") else None
+        env[f"{ARGS}.{d}"] = s.default if not (isinstance(s.default, tuple) and s.default and s.default[0] == "expr") else None
     return env
 
 
-def slice_for(fn, exprs, roots=("args",)):
+def slice_for(fn, exprs, roots=None):
     """Top-level statements of fn (in order) that define the names the expressions depend on, transitively.
     `roots` are names provided by the environment (the parsed-arguments object)."""
+    roots = roots or (ARGS,)
     need = set()
     for e in exprs:
         need |= {x.id for x in ast.walk(e) if isinstance(x, ast.Name)}
@@ -270,7 +284,7 @@ def eval_build_options(fn, specs, overrides):
     if call is None:
         raise Inconclusive("main does not construct BuildOptions")
     env = default_env(specs)
-    env.update({f"args.{k}": v for k, v in overrides.items()})
+    env.update({f"{ARGS}.{k}": v for k, v in overrides.items()})
     kws = {k.arg: k.value for k in call.keywords if k.arg}
     stmts = slice_for(fn, list(kws.values()))
     try:
